@@ -941,16 +941,24 @@ fn live_pair() -> Case {
         let b = InstanceInformation::new("beta".to_string()).with_ip_address(IpAddr::V4(Ipv4Addr::new(10, 1, 2, 4))).with_port(8102);
         let mut sa = match ServiceDiscovery::new(a.clone(), svc, 60) { Ok(s) => s, Err(_) => return Ok("not-exercised") };
         let sb = match ServiceDiscovery::new(b.clone(), svc, 60) { Ok(s) => s, Err(_) => return Ok("not-exercised") };
+        // a third, small instance tells whether discovery works in this environment at all: if it is seen and the large
+        // one is not, that is a failure, not an environment without multicast
+        let g = InstanceInformation::new("gamma".to_string()).with_ip_address(IpAddr::V4(Ipv4Addr::new(10, 1, 2, 5))).with_port(8104);
+        let mut sg = match ServiceDiscovery::new(g, svc, 60) { Ok(s) => s, Err(_) => return Ok("not-exercised") };
         let deadline = Instant::now() + Duration::from_secs(4);
         let mut seen = None;
-        while Instant::now() < deadline && seen.is_none() {
+        let mut baseline = false;
+        while Instant::now() < deadline && (seen.is_none() || !baseline) {
             sa.announce(false);
+            sg.announce(false);
             std::thread::sleep(Duration::from_millis(150));
             let known = sb.get_known_services();
             if known.iter().any(|i| i.unescaped_instance_name() == "beta") { return Err("a discovery reports its own instance".into()); }
+            baseline |= known.iter().any(|i| i.unescaped_instance_name() == "gamma");
             seen = known.into_iter().find(|i| i.unescaped_instance_name() == "alpha-one");
         }
-        let got = match seen { Some(g) => g, None => return Ok("not-exercised") };
+        if !baseline { return Ok("not-exercised"); }
+        let got = match seen { Some(g) => g, None => return Err("a small instance of the service is discovered, the instance with two dozen long attributes (an announcement of about 5.5 KB) is not".into()) };
         if inst_text(&got, "alpha-one") != inst_text(&a, "alpha-one") { return Err(format!("advertised {} discovered {}", inst_text(&a, "alpha-one"), inst_text(&got, "alpha-one"))); }
         sa.remove_service_from_discovery();
         let deadline = Instant::now() + Duration::from_millis(3500);
@@ -991,16 +999,22 @@ async fn live_pair_tokio() -> Case {
     let a = pair_instance();
     let b = InstanceInformation::new("beta".to_string()).with_ip_address(IpAddr::V4(Ipv4Addr::new(10, 1, 2, 4))).with_port(8102);
     let (mut sa, sb) = match (ServiceDiscovery::new(a.clone(), svc, 60), ServiceDiscovery::new(b.clone(), svc, 60)) { (Ok(x), Ok(y)) => (x, y), _ => return c.tag("sockets-not-exercised") };
+    let g = InstanceInformation::new("gamma".to_string()).with_ip_address(IpAddr::V4(Ipv4Addr::new(10, 1, 2, 5))).with_port(8104);
+    let mut sg = match ServiceDiscovery::new(g, svc, 60) { Ok(x) => x, Err(_) => return c.tag("sockets-not-exercised") };
     let deadline = Instant::now() + Duration::from_secs(4);
     let mut seen = None;
-    while Instant::now() < deadline && seen.is_none() {
+    let mut baseline = false;
+    while Instant::now() < deadline && (seen.is_none() || !baseline) {
         let _ = sa.announce(false).await;
+        let _ = sg.announce(false).await;
         tokio::time::sleep(Duration::from_millis(150)).await;
         let known = match tokio::time::timeout(Duration::from_secs(2), sb.get_known_services()).await { Ok(k) => k, Err(_) => return c.fail("discovery-wedged", "tokio pair: get_known_services does not return".into()) };
         if known.iter().any(|i| i.unescaped_instance_name() == "beta") { return c.fail("live-discovery-differs", "tokio pair: a discovery reports its own instance".into()); }
+        baseline |= known.iter().any(|i| i.unescaped_instance_name() == "gamma");
         seen = known.into_iter().find(|i| i.unescaped_instance_name() == "alpha-one");
     }
-    let got = match seen { Some(g) => g, None => return c.tag("sockets-not-exercised") };
+    if !baseline { return c.tag("sockets-not-exercised"); }
+    let got = match seen { Some(g) => g, None => return c.fail("live-discovery-differs", "tokio pair: a small instance of the service is discovered, the instance with two dozen long attributes (an announcement of about 5.5 KB) is not".into()) };
     if inst_text(&got, "alpha-one") != inst_text(&a, "alpha-one") { return c.fail("live-discovery-differs", format!("tokio pair: advertised {} discovered {}", inst_text(&a, "alpha-one"), inst_text(&got, "alpha-one"))); }
     sa.remove_service_from_discovery().await;
     c.tag("sockets-alive")
